@@ -72,3 +72,113 @@ def register(E):
                  'result[1] == Opt(func_list, len(func_list))'],
         returns=TTuple([TMSet(TStr), TMSet(TStr)]),
         prop=['C01', 'C02']))
+
+    # ---- compile_chain: the exec boundary (A-exec); summary validated by the
+    # bounded stand-in bounded/chain_text.py against the real build_chain_str ------
+    CH_FUNCS = Z.func('CH_FUNCS', Z.Obj, Z.SeqSort(Z.Obj))
+    CH_PARAMS = Z.func('CH_PARAMS', Z.Obj, Z.SeqSort(NamesSort))
+    CH_INNER = Z.func('CH_INNER', Z.Obj, Z.Str)
+    CH_LAST = Z.func('CH_LAST', Z.Obj, Z.Obj)                  # the innermost function
+    CH_INIT = Z.func('CH_INIT', Z.Obj, Z.SeqSort(Z.Obj))       # all but the innermost
+    E.ghost = getattr(E, 'ghost', {})
+    E.ghost.update(CH_FUNCS=CH_FUNCS, CH_PARAMS=CH_PARAMS, CH_INNER=CH_INNER, CH_LAST=CH_LAST, CH_INIT=CH_INIT)
+
+    def compile_chain_model(I, ctx, funcs, params, inner_name, verbose=None):
+        fz = I._as_seq(ctx, I.resolve(ctx, funcs), TFunc)[0]
+        pz = I._as_seq(ctx, I.resolve(ctx, params), TNames)[0]
+        ch = ctx.new_obj('chain', distinct=False)
+        ctx.assume(sig_facts(ch))
+        ctx.assume(ARGN(ch) == nset(pz[0]))
+        ctx.assume(DEF(ch) == Z.empty_set(Z.Str))
+        ctx.assume(nset(KWONLY(ch)) == Z.empty_set(Z.Str))
+        ctx.assume(Z.Not(VARKW(ch)))
+        ctx.assume(CH_FUNCS(ch) == fz)
+        ctx.assume(CH_PARAMS(ch) == pz)
+        ctx.assume(CH_INNER(ch) == inner_name.z)
+        n = z3.Length(fz)
+        ctx.assume(CH_LAST(ch) == fz[n - 1])
+        ctx.assume(CH_INIT(ch) == z3.Extract(fz, 0, n - 1))
+        return VObj(ch, 'Func')
+
+    E.add_contract(Contract('clastic.sinter.compile_chain', trusted=True, model=compile_chain_model,
+                            note='A-exec: compile+exec of the text built by build_chain_str; the summary '
+                                 '(parameters of the outermost def = params[0]; level k calls funcs[k]) is '
+                                 'validated against the real text by bounded/chain_text.py'))
+
+    @E.spec('ARGNAMES')
+    def ARGNAMES(I, ctx, f):
+        return VSet(ARGN(box(I.resolve(ctx, f), ctx)), TStr)
+
+    @E.spec('REQNAMES')
+    def REQNAMES(I, ctx, f):
+        return VSet(UNDEF(box(I.resolve(ctx, f), ctx)), TStr)
+
+    @E.spec('DEFNAMES')
+    def DEFNAMES(I, ctx, f):
+        return VSet(DEF(box(I.resolve(ctx, f), ctx)), TStr)
+
+    @E.spec('DEFAULT_OF')
+    def DEFAULT_OF(I, ctx, f, k):
+        return VObj(z3.Select(DEFVAL(box(I.resolve(ctx, f), ctx)), k.z))
+
+    @E.spec('chain_funcs')
+    def chain_funcs(I, ctx, ch):
+        return VSeq(CH_FUNCS(ch.z), TFunc)
+
+    @E.spec('chain_last')
+    def chain_last(I, ctx, ch):
+        return VObj(CH_LAST(ch.z), 'Func')
+
+    @E.spec('chain_init')
+    def chain_init(I, ctx, ch):
+        return VSeq(CH_INIT(ch.z), TFunc)
+
+    @E.spec('chain_params')
+    def chain_params(I, ctx, ch):
+        return VSeq(CH_PARAMS(ch.z), TNames)
+
+    ALLF = 'list(funcs) + [final_func]'
+    ALLP = 'list(provides) + [()]'
+    E.add_contract(Contract(
+        'clastic.sinter.make_chain',
+        params={'funcs': TSeq(TFunc), 'provides': TSeq(TNames), 'final_func': TFunc,
+                'preprovided': TMSet(TStr), 'inner_name': TStr},
+        requires=['len(funcs) == len(provides)'],
+        ensures=['result[2] == Req(%s, %s, inner_name, len(funcs) + 1) - set(preprovided)' % (ALLF, ALLP),
+                 'result[1] == Req(%s, %s, inner_name, len(funcs) + 1) | '
+                 '(set(preprovided) & Opt(%s, len(funcs) + 1))' % (ALLF, ALLP, ALLF),
+                 'ARGNAMES(result[0]) == result[1]',
+                 'DEFNAMES(result[0]) == set()',
+                 'chain_funcs(result[0]) == %s' % ALLF,
+                 'chain_params(result[0])[1:] == list(provides)',
+                 'chain_last(result[0]) is final_func',
+                 'chain_init(result[0]) == list(funcs)'],
+        returns=TTuple([TFunc, TMSet(TStr), TMSet(TStr)]),
+        prop=['C01', 'C02', 'C03']))
+
+    # ---- inject -------------------------------------------------------------------------
+    inj_post = [
+        'ncalls() == 1',
+        'call_fn(0) is f',
+        'call_nargs(0) == 0',
+        # no unexpected argument
+        'implies(not f_varkw, subset(keys(call_kw(0)), ARGNAMES(f)))',
+        # every declared name that some source offers is passed
+        'implies(not f_varkw, keys(call_kw(0)) == (keys(injectables) | DEFNAMES(f)) & ARGNAMES(f))',
+        # each value comes from the injectables when offered there, else the own default
+        'forall_keys(call_kw(0), lambda k, v: v is (injectables[k] if k in injectables else DEFAULT_OF(f, k)))',
+    ]
+
+    def inject_setup(E_, ctx, fr):
+        f = fr.locals['f']
+        fr.locals_spec = None
+        # ghost: whether f takes **kwargs (documented as unsupported; kept symbolic)
+        E_.specns['f_varkw'] = VBool(VARKW(f.z))
+
+    E.add_contract(Contract(
+        'clastic.sinter.inject',
+        params={'f': TFunc, 'injectables': TDict(TStr, TObj())},
+        setup=inject_setup,
+        ensures=inj_post, exc_ensures=inj_post, may_raise_any=True,
+        returns=TObj(),
+        prop=['C01', 'C02']))
